@@ -12,7 +12,7 @@ import (
 func init() {
 	register(&propInfo{
 		id: "C08", fn: checkC08, multiConfig: true,
-		explanation: "Path coherence decided on the bookkeeping code itself: (r1) renameChildTo is called exactly on the success side of the backend RenameAt with the same directory, names and target, markChildDeleted exactly on the success side of UnlinkAt with the same directory and name, and every successful exit after such a backend call has passed the bookkeeping call; (r2) Trename/Tremove take the entry's name from nameFor on the current parent while holding renameMu for write; (r3) renameChildTo, notifyNameChange, notifyDelete and markChildDeleted have the required shape — overwritten target fenced first, each moved reference's parent released / re-pointed / re-acquired, re-registered under the new name in the target's node, told Renamed(target.file, newName), the detached subtree re-attached under the target's node and notified recursively through both child references and child nodes, deletion marks propagated recursively; (r4) the fencing table: deleted → EINVAL dominates the backend call (or state change) of every path-dependent handler, deleted → ENOENT every walk step, and read/write/fsync/getattr are deliberately not fenced; (r5) childRefs and childRefNames are updated together and under childMu:W in every path_tree function, removeWithName also detaches the child node, a clone of a deleted reference is not registered; (r6) every reference literal with a parent is registered in the parent's node under the name it was walked/created with. (r7) removal and fencing are one step for the fids bound to the entry: UnlinkAt and markChildDeleted run under the write lock of the entry's path node (the rule of C07.r3). (r8) references stay registered as long as their fid is held: the reference balance of C05.r3 (a directory reference released once too often is unregistered from the path tree and misses later renames).",
+		explanation: "Path coherence decided on the bookkeeping code itself: (r1) renameChildTo is called exactly on the success side of the backend RenameAt with the same directory, names and target, markChildDeleted exactly on the success side of UnlinkAt with the same directory and name, and every successful exit after such a backend call has passed the bookkeeping call; (r2) Trename/Tremove take the entry's name from nameFor on the current parent while holding renameMu for write; (r3) renameChildTo, notifyNameChange, notifyDelete and markChildDeleted have the required shape — overwritten target fenced first, each moved reference's parent released / re-pointed / re-acquired, re-registered under the new name in the target's node, told Renamed(target.file, newName), the detached subtree re-attached under the target's node and notified recursively through both child references and child nodes, deletion marks propagated recursively; (r4) the fencing table: deleted → EINVAL dominates the backend call (or state change) of every path-dependent handler, deleted → ENOENT every walk step, and read/write/fsync/getattr are deliberately not fenced; (r5) childRefs and childRefNames are updated together and under childMu:W in every path_tree function, removeWithName also detaches the child node, a clone of a deleted reference is not registered; (r6) every reference literal with a parent is registered in the parent's node under the name it was walked/created with. (r7) removal and fencing are one step for the fids bound to the entry: UnlinkAt and markChildDeleted run under the write lock of the entry's path node (the rule of C07.r3). (r8) references stay registered as long as their fid is held: the reference balance of C05.r3 (a directory reference released once too often is unregistered from the path tree and misses later renames). (r9) fencing reaches every fid of an entry because all references on one path share one path node: a new reference is given the parent's pathNodeFor(name), the node of the reference it clones, or the root (the rule of C07.r7).",
 		assumptions: []string{"which object a name denotes after k renames is runtime state; only the per-step bookkeeping discipline is decided"},
 	})
 }
@@ -30,7 +30,10 @@ func checkC08(r *Run) {
 	// removed entry's path node across UnlinkAt and markChildDeleted (the rule of C07.r3), so no
 	// request bound to the entry runs between the two.
 	if r.borrowed == nil {
-		r.borrow(checkC07, map[string]string{"r3": "r7"})
+		// r9: fencing reaches every fid of an entry because all references to one path share
+		// one path node: a new reference takes the parent's pathNodeFor(name), an existing
+		// reference's node or the root (the rule of C07.r7)
+		r.borrow(checkC07, map[string]string{"r3": "r7", "r7": "r9"})
 		// r8: a fid keeps denoting its object only while its reference - and the parent
 		// references below it - stay alive: acquisitions and releases cancel on every path
 		// (the balance rule of C05.r3); a parent released once too often is closed and
